@@ -24,7 +24,9 @@ class Opaque(Exception):
 
 
 LIST_MUTATORS = {"append", "extend", "insert", "pop", "remove", "sort", "reverse", "clear"}
-ARRAY_MUTATORS = {"fill", "resize", "put", "itemset", "partition", "sort"}
+ARRAY_MUTATORS = {"fill", "resize", "put", "itemset", "partition", "sort", "setfield", "setflags"}
+# ndarray methods that write into the receiver only when asked to: x.byteswap(inplace=True), x.clip(..., out=x) is handled by out=
+INPLACE_KW_METHODS = {"byteswap": "inplace"}
 DICT_MUTATORS = {"update", "setdefault", "popitem", "clear", "pop"}
 SET_MUTATORS = {"add", "discard", "remove", "update", "clear", "pop"}
 NDARRAY_METHODS = frozenset({"sum", "mean", "max", "min", "argmin", "argmax", "dot", "trace", "cumsum", "prod", "std", "var", "any", "all"})
